@@ -54,10 +54,11 @@ SET_ACTIONS = ["SNew", "SAdd", "SRemove", "SPop", "SClear", "SUpdate", "SIOr", "
                "SInter", "SDiff", "SRDiff", "SSymDiff", "SIsSubset", "SIsSuperset", "SIsDisjoint", "SLe", "SLt", "SGe",
                "SGt", "SEq", "SNe", "SDerive", "SMutR", "SMutS"]
 MAP_ACTIONS = ["MNew", "MSetItem", "MDelItem", "MPopItem", "MGetItem", "MGet", "MContains", "MLen", "MKeys", "MValues",
-               "MItems", "MEqMap", "MNeMap", "MEqDict", "MNeDict"]
+               "MItems", "MEqMap", "MNeMap", "MEqDict", "MNeDict", "MCopy", "CGetItem", "CGet", "CContains", "CLen",
+               "CItems", "CSetItem", "CDelItem", "CPopItem", "SrcSetItem", "SrcDelItem"]
 WITNESSES = {"set": ["Witness_RemoveAbsent", "Witness_ResultClearedOriginalKept", "Witness_OriginalClearedResultKept",
                      "Witness_XorOverlap", "Witness_PopLeavesSmaller"],
-             "map": ["Witness_OverwriteNotLast", "Witness_DeleteNotLast", "Witness_PopItemEmpty"]}
+             "map": ["Witness_CopyOverwritePresent", "Witness_OverwriteNotLast", "Witness_DeleteNotLast", "Witness_PopItemEmpty"]}
 
 ALL16 = [frozenset(x) for x in ((), (1,), (2,), (3,), (4,), (1, 2), (1, 3), (1, 4), (2, 3), (2, 4), (3, 4), (1, 2, 3),
                                 (1, 2, 4), (1, 3, 4), (2, 3, 4), (1, 2, 3, 4))]
@@ -108,6 +109,8 @@ def signature_of(kind, d):
         if op in ("issuperset", "ge", "gt", "lt") and d["what"] == "result":
             return "SortedSet.issuperset:result:operand-with-repeated-elements"
         tail += DUPS_TAIL
+    if kind == "map" and op == "copy":
+        op = "copy(%s)" % (d["action"]["arg"],)                # ctor: OrderedMap(m); assign: item by item
     if op in ("derive", "mut_result", "mut_original"):       # name the call / probe, not only the action
         arg = d["action"]["arg"]
         op = "%s(%s)" % (op, arg[0])
@@ -304,7 +307,7 @@ def replay_plan(ctx, label, consts, graph, summary, reported):
             ctx.nontrivial((label,) + k)
     for w in walks[:2]:
         ctx.sample(rc.jsonable({"run": label, "behaviour": [{"act": nodes[x]["act"], "S": nodes[x]["S"], "M": nodes[x]["M"],
-                                                             "R": nodes[x].get("R", ())} for x in w[1:]]}))
+                                                             "R": nodes[x].get("R", ()), "C": nodes[x].get("C", ())} for x in w[1:]]}))
     st = selftest(ctx, kind, n, nodes, max(walks, key=len), obs_out)
     summary.append({"run": label, "graph_nodes": len(nodes), "graph_edges": len(all_edges),
                     "mutator_edges": len(mut_edges), "exhaustive": exhaustive,
